@@ -223,15 +223,15 @@ Definition jstr (e : bytes) : bytes := [34] ++ e ++ [34].
 Lemma copy_tag_values_done fuel l K out endp count : eat_ws_commas l = 93 :: K -> copy_tag_values (S fuel) l out endp count = Ok (out, endp, count).
 Proof. intros H. cbn [copy_tag_values]. rewrite H. cbn [peek bind]. change (93 =? 93) with true. reflexivity. Qed.
 
-Lemma copy_tag_values_step fuel l s e c0 rest0 pre F endp count : escd0 s e -> len pre = endp -> 2 + len s <= len F ->
+Lemma copy_tag_values_step fuel l s e c0 rest0 pre F endp count : escd s e -> len pre = endp -> 2 + len s <= len F ->
   eat_ws_commas l = 34 :: e ++ 34 :: c0 :: rest0 ->
   copy_tag_values (S fuel) l (pre ++ F) endp count
   = copy_tag_values fuel (c0 :: rest0) ((pre ++ enc_str s) ++ drop (2 + len s) F) (endp + 2 + len s) (count + 1).
 Proof.
-  intros [Vs Es] Lp Hcap H. cbn [copy_tag_values]. rewrite H. cbn [peek bind]. change (34 =? 93) with false. cbv iota.
+  intros [Hun Hbu] Lp Hcap H. cbn [copy_tag_values]. rewrite H. cbn [peek bind]. change (34 =? 93) with false. cbv iota.
   cbn [verify_char]. change (34 =? 34) with true. cbv iota. cbn [bind].
   replace (len (pre ++ F) <? endp + 2) with false by (symmetry; apply N.ltb_ge; rewrite len_app; lia).
-  rewrite (escape_unescape_roundtrip s e (c0 :: rest0) _ Vs Es) by (rewrite len_app; lia). cbn [bind].
+  rewrite (Hun (c0 :: rest0) _) by (rewrite len_app; lia). cbn [bind].
   destruct (split_free F 2 ltac:(lia)) as [EF L2]. remember (take 2 F) as f2 eqn:Ef2. remember (drop 2 F) as F1 eqn:EF1d. clear Ef2.
   assert (HF1 : len F1 = len F - 2) by (rewrite EF1d; apply len_drop).
   destruct (split_free F1 (len s) ltac:(lia)) as [EF1 Ls]. remember (take (len s) F1) as fs eqn:Efs. remember (drop (len s) F1) as F' eqn:EF'd. clear Efs.
@@ -245,7 +245,7 @@ Proof.
   unfold enc_str. rewrite <- !app_assoc, HF'. reflexivity.
 Qed.
 
-Lemma copy_tag_values_items vs : forall evs fuel pre F K endp count, Forall2 escd0 vs evs ->
+Lemma copy_tag_values_items vs : forall evs fuel pre F K endp count, Forall2 escd vs evs ->
   (length vs < fuel)%nat -> len pre = endp -> sumN (map str_size vs) <= len F ->
   copy_tag_values fuel (items_close (map jstr evs) K) (pre ++ F) endp count
   = Ok (pre ++ concat (map enc_str vs) ++ drop (sumN (map str_size vs)) F, endp + sumN (map str_size vs), count + len vs).
@@ -270,7 +270,7 @@ Qed.
 Lemma vals_text_items evs K : join [44] (map jstr evs) ++ 93 :: K = match evs with [] => 93 :: K | e :: r => jstr e ++ items_close (map jstr r) K end.
 Proof. rewrite join_close_items. destruct evs; reflexivity. Qed.
 
-Lemma copy_tag_values_spec vs evs fuel pre F K endp count : Forall2 escd0 vs evs ->
+Lemma copy_tag_values_spec vs evs fuel pre F K endp count : Forall2 escd vs evs ->
   (length vs < fuel)%nat -> len pre = endp -> sumN (map str_size vs) <= len F ->
   copy_tag_values fuel (join [44] (map jstr evs) ++ 93 :: K) (pre ++ F) endp count
   = Ok (pre ++ concat (map enc_str vs) ++ drop (sumN (map str_size vs)) F, endp + sumN (map str_size vs), count + len vs).
@@ -292,28 +292,28 @@ Proof.
 Qed.
 
 (* the first pass skips the same array *)
-Lemma burn_array_items vs : forall evs fuel K, Forall2 escd0 vs evs -> (S (length vs) < fuel)%nat ->
+Lemma burn_array_items vs : forall evs fuel K, Forall2 escd vs evs -> (S (length vs) < fuel)%nat ->
   burn_array fuel 0 (items_close (map jstr evs) K) = Ok K.
 Proof.
   induction vs as [|s r IH]; intros evs fuel K H2 Hf; (destruct fuel as [|fuel]; [lia|]).
   - assert (evs = []) by (inversion H2; reflexivity). subst evs. cbn [map items_close burn_array].
     rewrite eat_ws_commas_stop by (try reflexivity; lia). change (93 =? 93) with true. reflexivity.
-  - destruct evs as [|e er]; [inversion H2|]. apply F2_cons in H2. destruct H2 as [[Vs Es] H2r].
+  - destruct evs as [|e er]; [inversion H2|]. apply F2_cons in H2. destruct H2 as [[Hun Hbu] H2r].
     cbn [map items_close burn_array]. rewrite eat_ws_commas_comma. unfold jstr at 1. cbn [app]. rewrite eat_ws_commas_stop by (try reflexivity; lia).
     change (34 =? 93) with false. cbv iota.
     destruct fuel as [|fuel]; [cbn [length] in Hf; lia|]. cbn [burn_value]. change (MAX_BURN_DEPTH <? 0) with false. cbv iota.
-    change (34 =? 34) with true. cbv iota. rewrite <- app_assoc. cbn [app]. rewrite (burn_string_escaped s e _ Vs Es). cbn [bind].
+    change (34 =? 34) with true. cbv iota. rewrite <- app_assoc. cbn [app]. rewrite (Hbu _). cbn [bind].
     apply (IH er (S fuel) K H2r). cbn [length] in Hf. lia.
 Qed.
-Lemma burn_array_vals vs evs fuel K : Forall2 escd0 vs evs -> (S (S (length vs)) < fuel)%nat ->
+Lemma burn_array_vals vs evs fuel K : Forall2 escd vs evs -> (S (S (length vs)) < fuel)%nat ->
   burn_array fuel 0 (join [44] (map jstr evs) ++ 93 :: K) = Ok K.
 Proof.
   intros H2 Hf. rewrite vals_text_items. destruct vs as [|s r].
   - assert (evs = []) by (inversion H2; reflexivity). subst evs. apply (burn_array_items [] [] fuel K H2). cbn [length] in *. lia.
-  - destruct evs as [|e er]; [inversion H2|]. apply F2_cons in H2. destruct H2 as [[Vs Es] H2r].
+  - destruct evs as [|e er]; [inversion H2|]. apply F2_cons in H2. destruct H2 as [[Hun Hbu] H2r].
     destruct fuel as [|[|fuel]]; try (cbn [length] in Hf; lia). cbn [burn_array]. unfold jstr at 1. cbn [app]. rewrite eat_ws_commas_stop by (try reflexivity; lia).
     change (34 =? 93) with false. cbv iota. cbn [burn_value]. change (MAX_BURN_DEPTH <? 0) with false. cbv iota.
-    change (34 =? 34) with true. cbv iota. rewrite <- app_assoc. cbn [app]. rewrite (burn_string_escaped s e _ Vs Es). cbn [bind].
+    change (34 =? 34) with true. cbv iota. rewrite <- app_assoc. cbn [app]. rewrite (Hbu _). cbn [bind].
     apply (burn_array_items r er (S fuel) K H2r). cbn [length] in Hf. lia.
 Qed.
 
@@ -455,7 +455,7 @@ Section Member.
   Qed.
 
   (* a tag field: hash, letter, quote, colon, bracket, values *)
-  Lemma fmem_tag L vs evs K : is_letter L = true -> existsb (fun x => x =? L) (fl_letters st) = false -> Forall2 escd0 vs evs ->
+  Lemma fmem_tag L vs evs K : is_letter L = true -> existsb (fun x => x =? L) (fl_letters st) = false -> Forall2 escd vs evs ->
     filter_member st (35 :: L :: 34 :: 58 :: 91 :: join [44] (map jstr evs) ++ 93 :: K)
     = Ok (mkFl (fl_out st) c (L :: fl_letters st) (fl_start_ids st) (fl_start_authors st) (fl_start_kinds st)
                (fl_start_tags st ++ [L :: 34 :: 58 :: 91 :: join [44] (map jstr evs) ++ 93 :: K]), K).
@@ -581,7 +581,7 @@ Qed.
 
 (* ---- the tag fields, then limit / since / until ---- *)
 Definition tagspec := (N * (list bytes * list bytes))%type.     (* letter, values, escaped values *)
-Definition tag_ok (t : tagspec) : Prop := is_letter (fst t) = true /\ Forall2 escd0 (fst (snd t)) (snd (snd t)).
+Definition tag_ok (t : tagspec) : Prop := is_letter (fst t) = true /\ Forall2 escd (fst (snd t)) (snd (snd t)).
 Definition tpart (t : tagspec) : bytes := tag_part (fst t) (snd (snd t)).
 Definition tvals_text (t : tagspec) : bytes := join [44] (map jstr (snd (snd t))).
 
@@ -865,14 +865,23 @@ Proof.
   change (join [44] (p :: q :: ps)) with (p ++ [44] ++ join [44] (q :: ps)). rewrite <- !app_assoc. cbn [app members_close]. rewrite IH. reflexivity.
 Qed.
 
-Lemma tag_json_tpart t : tag_ok t -> filter_tag_json (tag_of t) = Ok (tpart t).
+(* the as_json direction needs the spelling json_escape chooses *)
+Definition tag_ok0 (t : tagspec) : Prop := is_letter (fst t) = true /\ Forall2 escd0 (fst (snd t)) (snd (snd t)).
+Lemma tag_ok0_ok t : tag_ok0 t -> tag_ok t.
+Proof.
+  intros [H1 H2]. split; [exact H1|]. induction H2 as [|s e vs evs H _ IH]; constructor; [apply escd0_escd; exact H|exact IH].
+Qed.
+Lemma tags_ok0_ok tags : Forall tag_ok0 tags -> Forall tag_ok tags.
+Proof. intros H. eapply Forall_impl; [|exact H]. intros t. apply tag_ok0_ok. Qed.
+
+Lemma tag_json_tpart t : tag_ok0 t -> filter_tag_json (tag_of t) = Ok (tpart t).
 Proof.
   intros [_ H2]. unfold filter_tag_json, tag_of, tpart, tag_part.
   assert (Hm : map_res json_string (fst (snd t)) = Ok (map jstr (snd (snd t)))).
   { induction H2 as [|s e vs evs [Vs Es] _ IH]; [reflexivity|]. cbn [map_res map]. unfold json_string at 1. rewrite Es. cbn [bind]. rewrite IH. reflexivity. }
   rewrite Hm. cbn [bind]. reflexivity.
 Qed.
-Lemma tags_json_tparts tags : Forall tag_ok tags -> map_res filter_tag_json (map tag_of tags) = Ok (map tpart tags).
+Lemma tags_json_tparts tags : Forall tag_ok0 tags -> map_res filter_tag_json (map tag_of tags) = Ok (map tpart tags).
 Proof.
   induction 1 as [|t r Ht _ IH]; [reflexivity|]. cbn [map map_res]. rewrite (tag_json_tpart t Ht). cbn [bind]. rewrite IH. reflexivity.
 Qed.
@@ -880,7 +889,7 @@ Qed.
 Definition all_parts (f : afilter) (tags : list tagspec) : list bytes :=
   p_ids (f_ids f) ++ p_authors (f_authors f) ++ p_kinds (f_kinds f) ++ map tpart tags ++ numparts (f_limit f) (f_since f) (f_until f).
 
-Lemma filter_as_json_text f tags : f_tags f = map tag_of tags -> Forall tag_ok tags ->
+Lemma filter_as_json_text f tags : f_tags f = map tag_of tags -> Forall tag_ok0 tags ->
   filter_as_json f = Ok ([123] ++ join [44] (all_parts f tags) ++ [125]).
 Proof.
   intros Et Hok. unfold filter_as_json. rewrite Et, (tags_json_tparts tags Hok). cbn [bind]. unfold all_parts, numparts, p_ids, p_authors, p_kinds, p_limit, p_since, p_until, hexlist, declist, hex_item.
@@ -888,7 +897,7 @@ Proof.
 Qed.
 
 Definition wf_filter_json (f : afilter) (tags : list tagspec) : Prop :=
-  f_tags f = map tag_of tags /\ Forall tag_ok tags /\ NoDup (map fst tags) /\
+  f_tags f = map tag_of tags /\ Forall tag_ok0 tags /\ NoDup (map fst tags) /\
   Forall (fun x => wf_bytes x /\ len x = 32) (f_ids f) /\ Forall (fun x => wf_bytes x /\ len x = 32) (f_authors f) /\
   Forall (fun k => k < 65536) (f_kinds f) /\
   f_limit f < 4294967296 /\ f_since f < 18446744073709551616 /\ f_until f < 18446744073709551616 /\
@@ -965,6 +974,7 @@ Theorem filter_json_roundtrip f tags txt out : wf_filter_json f tags -> filter_s
 Proof.
   intros (Et & Hok & Hnd & Wi & Wa & Wk & Hl & Hs & Hu & Ni & Na & Nk & Hfit & Hsz) Hcap Hj.
   rewrite (filter_as_json_text f tags Et Hok) in Hj. injection Hj as Etxt.
+  pose proof (tags_ok0_ok tags Hok) as Hok1.
   set (parts := all_parts f tags) in *.
   set (ids := f_ids f) in *. set (au := f_authors f) in *. set (ks := f_kinds f) in *.
   set (l := f_limit f) in *. set (s := f_since f) in *. set (u := f_until f) in *.
@@ -1009,7 +1019,7 @@ Proof.
   assert (Hfuel : Datatypes.S (length txt) = (length (p_ids ids) + (length (p_authors au) + (length (p_kinds ks) + (length tags + nnum l s u fuel))))%nat)
     by (unfold nnum; subst fuel; lia).
   rewrite Hfuel in Hfi, Hfa, Hfk. rewrite Hfuel.
-  destruct (run_ids ids au ks tags l s u st0 fuel [] a12 R Wi Wa Wk Hok Hnd) as [st' [Hrun (Si & Sa & Sk & St & So)]];
+  destruct (run_ids ids au ks tags l s u st0 fuel [] a12 R Wi Wa Wk Hok1 Hnd) as [st' [Hrun (Si & Sa & Sk & St & So)]];
     try assumption; try (intros L0 _ []); try (cbn [fl_found st0]; lia); try reflexivity.
   subst parts. unfold all_parts. fold ids au ks l s u. rewrite Hrun. cbn [bind]. clear Hrun.
   rewrite Si, Sa, Sk, St, So. subst st0. cbn [fl_start_ids fl_start_authors fl_start_kinds fl_start_tags app].
@@ -1062,7 +1072,7 @@ Proof.
     by (cbn [app]; rewrite <- !app_assoc; reflexivity).
   rewrite <- LP at 1 2.
   replace (len ([0;0;0;0] ++ P') + 4 + 2 * len tags) with (len ([0;0;0;0] ++ P') + 4 + 2 * len tags + len (@nil N)) by (change (len (@nil N)) with 0; lia).
-  rewrite (copy_tag_fields_spec tags _ [] ([0;0;0;0] ++ P') (t2 ++ le16 (len tags)) [] ot [] F6 0 (len tags) Hok)
+  rewrite (copy_tag_fields_spec tags _ [] ([0;0;0;0] ++ P') (t2 ++ le16 (len tags)) [] ot [] F6 0 (len tags) Hok1)
     by (rewrite ?len_app, ?len_le16; try reflexivity; lia).
   rewrite LP. cbn [bind]. rewrite !app_nil_l. change (len (@nil N)) with 0. rewrite !N.add_0_r.
   fold S.
